@@ -2052,7 +2052,7 @@ func runPch(c pchCase) (line string, reply string) {
 		var pus []result.PackageUpdate
 		var us []string
 		touched := map[int]bool{}
-		var sentTo []string
+		var sentTo, added []string
 		for i, di := range c.Ups {
 			d := c.Decls[di]
 			if d.Profile != "" && d.Level > 0 {
@@ -2064,7 +2064,15 @@ func runPch(c pchCase) (line string, reply string) {
 				pus = append(pus, result.PackageUpdate{Name: name, VersionTo: c.To[i], Type: ty, Transitive: true})
 				us = append(us, strings.Join([]string{hs(name), hs(""), hs(""), hs("management"), hs(""), hs(c.To[i])}, ":"))
 				sentTo = append(sentTo, c.To[i])
-				touched[d.Level] = true
+				if d.Mgmt {
+					touched[d.Level] = true // a dependencyManagement declaration (of the parent's profile) takes the dependencyManagement requirement
+				} else {
+					// fix <commit8>: a dependencyManagement requirement is never written into a declaration outside dependencyManagement:
+					// the manifest gets a dependencyManagement entry of its own
+					touched[0] = true
+					g, a := splitGA(name)
+					added = append(added, strings.Join([]string{hs("management"), hs(g), hs(a), hs("jar"), hs(""), hs(c.To[i])}, ":"))
+				}
 				continue
 			}
 			for _, r := range reqList {
@@ -2120,7 +2128,7 @@ func runPch(c pchCase) (line string, reply string) {
 			return "r=ok-rereaderr"
 		}
 		after, _ := pchReqs(m2)
-		return fmt.Sprintf("r=ok chain=%s same=%s applied=%s", after, hx.B(same), applied)
+		return fmt.Sprintf("r=ok chain=%s same=%s applied=%s added=%s", after, hx.B(same), applied, hx.Join(added, ","))
 	})
 	return c.concrete() + " " + ups + " " + before, reply
 }
